@@ -383,9 +383,22 @@ void runSer(const Op& op, Transcript& t) {
       SinkLog lo;
       SinkStreambuf sb(lo);
       std::ostream os(&sb);
+      // the state a caller may have left on the stream (a pending field width, a fill character, an adjustment,
+      // a number base) is about formatted output: the serializers write bytes
+      unsigned osState = unsigned(op.unum("os", 0));
+      if (osState) {
+        os.width(std::streamsize(1 + osState % 11));
+        os.fill(osState & 16 ? '.' : ' ');
+        os.setf(osState & 32 ? std::ios::left : std::ios::right, std::ios::adjustfield);
+        os.setf(osState & 64 ? std::ios::hex : std::ios::dec, std::ios::basefield);
+        if (osState & 128)
+          os.setf(std::ios::showbase | std::ios::uppercase | std::ios::showpos);
+        count("sink.ostream_with_state");
+      }
       size_t r2 = ser(f, src, os);
       if (r2 != len || lo.accepted != T)
-        violate(cls + ":destination", "std::ostream: returned " + std::to_string(r2) + " / content differs");
+        violate(cls + ":destination", "std::ostream: returned " + std::to_string(r2) + " / content differs" +
+                                          (osState ? " (stream had formatting state set)" : ""));
       SinkLog lp;
       SimPrint pr(lp, SIZE_MAX);
       size_t r3 = ser(f, src, pr);
@@ -549,6 +562,10 @@ Plan generate(const std::string& mode, uint64_t seed, uint64_t run) {
     big = true;
     size_t n = 65534 + size_t(r.below(4));
     unsigned what = unsigned(r.below(mp ? 4 : 3));
+    // (an object of 65 535 members costs the library itself close to a minute under the sanitizers: every key is
+    // looked up among all copied strings before it is stored; keep it, but rarer than the other shapes)
+    if (what == 1 && !r.chance(1, 4))
+      what = r.chance(1, 2) ? 0 : 2;
     if (what == 3) {
       // bin 32 / ext 32 handed over through MsgPackBinary / MsgPackExtension: every byte of the 4-byte length
       // field takes a non-zero value somewhere in this list (only builds with 4-byte string lengths can hold them)
@@ -638,6 +655,8 @@ Plan generate(const std::string& mode, uint64_t seed, uint64_t run) {
   Op op = mkop("ser");
   static const char* fm[] = {"json", "pretty"};
   op.set("fmt", mp ? "mp" : fm[r.below(2)]).set("v", toText(v)).set("caps", big ? "sample" : "all");
+  if (r.chance(1, 3))
+    op.setu("os", 1 + r.below(255));  // formatting state left on the std::ostream destination
   if (big && !bigThroughApi)
     op.set("viamp", 1);  // built by the MessagePack deserializer: member insertion through the API is quadratic
   if (!big && r.chance(1, 4)) {
